@@ -1,7 +1,7 @@
 //! Shared builders, stubs and models for all harnesses.
 use crate::*;
 use crate::directive::{Directive, NormalDirective, VModelDirective};
-pub use swc_core::common::{comments::{Comment, CommentKind, Comments, GlobalComments, NoopComments, SingleThreadedComments}, BytePos, Mark, Span, Spanned, SyntaxContext, DUMMY_SP};
+pub use swc_core::common::{comments::{Comment, CommentKind, Comments, NoopComments, SingleThreadedComments}, BytePos, Mark, Span, Spanned, SyntaxContext, DUMMY_SP};
 pub use swc_core::ecma::{ast::*, atoms::Atom};
 pub use std::borrow::Cow;
 
@@ -15,7 +15,7 @@ pub unsafe fn no_glue<T: ?Sized>(_p: &mut T) {}
 pub fn fmt_marker(_a: std::fmt::Arguments<'_>) -> String { String::from("<fmt>") }
 
 pub type V = VueJsxTransformVisitor<NoopComments>;
-pub type VC = VueJsxTransformVisitor<GlobalComments>;
+pub type VC = VueJsxTransformVisitor<SingleThreadedComments>;
 pub const UNRESOLVED: Mark = Mark(63);
 pub fn unresolved_ctxt() -> SyntaxContext { SyntaxContext::empty().apply_mark(UNRESOLVED) }
 pub fn local_ctxt() -> SyntaxContext { SyntaxContext::empty().apply_mark(Mark(62)) }
